@@ -10,6 +10,7 @@ import (
 	"path/filepath"
 	"strconv"
 	"testing"
+	"time"
 
 	"github.com/markusressel/fan2go/internal"
 	"github.com/markusressel/fan2go/internal/configuration"
@@ -73,6 +74,10 @@ func TestDriveC08(t *testing.T) {
 		}
 		writeVal(strconv.Itoa(x0))
 		v0, err0 := sensor.GetValue()
+		for retry := 0; retry < 5 && err0 != nil; retry++ { // (a command can fail on a heavily loaded machine)
+			time.Sleep(200 * time.Millisecond)
+			v0, err0 = sensor.GetValue()
+		}
 		must(err0)
 		sensor.SetMovingAvg(v0) // as initializeSensors does
 		rec.NextTrace()
